@@ -144,6 +144,8 @@ def refE : Kind → List V → Except Err (List V)
   | .split sep m, xs => splitE sep m xs
   | .unique key, xs => uniqueE key xs
   | .flatten, xs => flattenE xs
+  | .raises e _, _ => .error e
+  | .wrapIter, _ => .ok [.list [.gen]]
 
 /-- the composition, stages applied in the order they were chained -/
 def composeE : List Kind → List V → Except Err (List V)
@@ -176,7 +178,8 @@ def foldCore (c : Core) : List V → Term → Tr
     | (o, _, .fail e) => ⟨o, .err e⟩
 
 def stageTr (k : Kind) (d : Tr) : Tr :=
-  if k.initStopped then ⟨[], .eof⟩ else foldCore (Core.init k) d.items d.term
+  if k.initStopped then ⟨k.initOut, match k.initErr with | some e => .err e | none => .eof⟩
+  else foldCore (Core.init k) d.items d.term
 
 /-- the pipeline as a function on traces, `kinds` in chaining order -/
 def pipeTr : List Kind → Tr → Tr
@@ -424,6 +427,11 @@ structure Facts where
                                               -- `target` only in `get_handler(…)`, `iterate(target)` and the error message
   glomitReversed : Bool                       -- `for … in reversed(self._iter_stack)`
   callbacks : List (String × String)          -- builder method → iterator function its callback calls
+  callbackArgs : List (String × String)       -- builder method → the call that builds its iterator, in normal form
+  iterateExtra : List (String × String)       -- statements of `_iterate` that are none of the model's
+  addOpTypeSelf : Bool                        -- `_add_op` builds `type(self)(…)`: a subclass stays a subclass
+  allIsPipeList : Bool                        -- `all()` is `return Pipe(self, list)`
+  firstShape : Bool                           -- `first(key, default)` is `return (self, First(key=key, default=default))`
   callbackWrites : List (String × String)     -- (method, statement): a stage callback (or a function nested in a builder
                                               -- method) writes a variable of the method's frame — state per SPEC, not per stream
 
@@ -432,10 +440,20 @@ def expectedCallbacks : List (String × String) :=
    ("split", "split_iter"), ("flatten", "chain.from_iterable"), ("unique", "unique_iter"),
    ("slice", "islice"), ("limit", "islice"), ("takewhile", "takewhile"), ("dropwhile", "dropwhile")]
 
+/-- the iterator-building call of every stage callback, in the extractor's normal form: `IT` is the
+    iterator handed in, `G(x)` is `t ↦ scope[glom](t, x, scope)`, `NOTSKIP(G(x))` is `t ↦ … is not SKIP` -/
+def expectedCallbackArgs : List (String × String) :=
+  [("map", "imap(G(subspec), IT)"), ("filter", "ifilter(NOTSKIP(G(check_spec)), IT)"),
+   ("chunked", "chunked_iter(IT, **kw)"), ("windowed", "windowed_iter(IT, size)"),
+   ("split", "split_iter(IT, sep=sep, maxsplit=maxsplit)"), ("flatten", "chain.from_iterable(IT)"),
+   ("unique", "unique_iter(IT, key=G(key))"), ("slice", "islice(IT, *args)"), ("limit", "islice(IT, count)"),
+   ("takewhile", "takewhile(G(key), IT)"), ("dropwhile", "dropwhile(G(key), IT)")]
+
 def Facts.WF (f : Facts) : Bool :=
   f.iterSelfWrites.isEmpty && f.invokeSelfWrites.isEmpty && f.addOpNewList && f.addOpForwardsSentinel &&
   f.invokeCopies == [("constants", true), ("specs", true), ("star", true)] &&
   f.iterateSkipContinues && f.iterateStopReturns && f.iterateOnlyNexts && f.glomitReversed &&
-  f.callbacks == expectedCallbacks && f.callbackWrites.isEmpty
+  f.callbacks == expectedCallbacks && f.callbackWrites.isEmpty &&
+  f.callbackArgs == expectedCallbackArgs && f.iterateExtra.isEmpty && f.addOpTypeSelf && f.allIsPipeList && f.firstShape
 
 end Glom.C17
